@@ -29,6 +29,14 @@ int cfg_desc(cfg_t c) {
     struct ec_args a;
     memset(&a, 0, sizeof(a));
     a.k = c.k; a.m = c.m; a.hd = c.hd; a.ct = (ec_checksum_type_t)c.ct;
+    /* the word size a caller asks for: the built-in codes have a fixed one (null 32, flat XOR 32, rs_vand 16)
+       whatever is requested, so every suite also runs over this dimension */
+    {
+        static const int w_fixed[] = { 0, 0, 8, 16, 32, 64, 7, 4 }, w_null[] = { 0, 0, 8, 16, 32 };
+        if (c.be == 3 || c.be == 6) a.w = w_fixed[rnd(8)];
+        else if (c.be == 0) a.w = w_null[rnd(5)];
+        char key[40]; snprintf(key, sizeof key, "cfg.created_w_%d", a.w); stat_add(key, 1);
+    }
     int d = liberasurecode_instance_create((ec_backend_id_t)c.be, &a);
     if (d > 0 && g_ncache < MAXC) { g_cache[g_ncache].c = c; g_cache[g_ncache].desc = d; g_ncache++; }
     return d;
